@@ -349,3 +349,36 @@ def calls_of(atoms):
 
 def consts_of(atoms):
     return {a[6:] for a in atoms if a.startswith('const:')}
+
+
+def full_lineage(prog, fn, op, depth=0, _lt=None):
+    """Lineage of an operand with every call looked through (first argument), extended across closure boundaries:
+    a captured variable (`upvar:x`) continues with the lineage of the parent's local `x`, and a closure parameter
+    continues with the receiver of the adaptor call the closure is passed to (`opt.and_then(|v| ..)`: v comes from opt;
+    `it.find(|e| ..)`: e comes from it)."""
+    lt = _lt or Tracer(prog, transparent=lambda cs: True, use_summaries=False)
+    at = set(lt.prov(fn, op))
+    if not fn.parent or depth > 3:
+        return at
+    par = prog.fns.get(fn.parent)
+    home = getattr(prog, 'helper_home', None) or {}
+    p_ = fn.parent
+    while par is None and p_ in home:
+        p_ = home[p_]
+        par = prog.fns.get(p_)
+    if par is None:
+        return at
+    for a in list(at):
+        if a.startswith('upvar:'):
+            name = a[6:].lstrip('*')
+            for d_ in par.body['dbg']:
+                if d_['n'] == name and 'p' not in d_['pl']:
+                    at |= full_lineage(prog, par, {'k': 'copy', 'pl': {'l': d_['pl']['l']}}, depth + 1, lt)
+        elif a.startswith('arg:') and int(a[4:]) >= 2:
+            mark = '{closure@%s:%d:' % (fn.sp['f'], fn.sp['l'])
+            for bb, t in par.calls():
+                if any(x.get('k') in ('copy', 'move') and 'p' not in x['pl'] and mark in par.local_ty(x['pl']['l'])
+                       for x in t['args']) and t['args']:
+                    at.add('via:' + callee_short(t))
+                    at |= full_lineage(prog, par, t['args'][0], depth + 1, lt)
+    return at
